@@ -419,7 +419,9 @@ func (h *vHist) listv(q VerListReq, finger string) VerListObs {
 		_ = k
 		d5 = true
 	}
-	if lo.Obs != model {
+	if lo.Obs == "err InternalError" && !strings.HasPrefix(model, "err ") {
+		h.c.mismatch(Mismatch{Kind: "spec", Backend: "mem", Case: cs, Impl: lo.Obs, Model: model, Spec: "a listing, not an internal error", Finger: fp})
+	} else if lo.Obs != model {
 		h.c.mismatch(Mismatch{Kind: "model", Backend: "mem", Case: cs, Impl: lo.Obs, Model: model, Spec: spec, Finger: fp})
 	}
 	if lo.OK && !q.HasDelim && q.KeyMarker == "" && q.ClampedMaxKeys >= 1000 && strings.HasPrefix(spec, "specversions") {
@@ -435,6 +437,17 @@ func (h *vHist) listv(q VerListReq, finger string) VerListObs {
 				fp = "c13:suspended-write-over-enabled-version"
 			}
 			h.c.mismatch(Mismatch{Kind: "spec", Backend: "mem", Case: cs, Impl: got, Model: model, Spec: want, Finger: fp})
+		}
+	}
+	if lo.OK && !q.HasDelim && !q.HasPrefix && q.KeyMarker == "" && strings.HasPrefix(spec, "specversions") {
+		// a first page: truncated exactly when entries remain beyond it
+		nSpec := 0
+		if body := strings.TrimPrefix(spec, "specversions "); body != "-" {
+			nSpec = len(strings.Split(body, ","))
+		}
+		if !d5 && lo.Trunc != (len(lo.Entries) < nSpec) {
+			h.c.mismatch(Mismatch{Kind: "spec", Backend: "mem", Case: cs, Impl: fmt.Sprintf("%d entries returned, IsTruncated=%v", len(lo.Entries), lo.Trunc), Model: model,
+				Spec: fmt.Sprintf("%d entries exist: IsTruncated=%v", nSpec, len(lo.Entries) < nSpec), Finger: "c13:truncation-flag"})
 		}
 	}
 	if lo.OK && lo.Trunc && (lo.NextKey == "" || lo.NextVer == "") && lo.Obs == model {
